@@ -264,27 +264,23 @@ theorem removeEntry_spec (f f' : Frag) (e : Entry) (h : removeEntry f e = .ok f'
     (∀ k, fragGet f' k = if k ∈ e.ids then none else fragGet f k) ∧
     (∀ x n, (x, n) ∈ f'.xtc ↔ ((x, n) ∈ f.xtc ∧ ¬ (e.xt = some x ∧ e.nid = n))) := by
   unfold removeEntry at h
-  by_cases hc : removeOk f e = true
-  · rw [if_pos hc] at h
-    simp only [Except.ok.injEq] at h
-    subst h
-    refine ⟨rfl, rfl, rfl, rfl, ?_, ?_⟩
-    · intro k
-      simp only [fragGet, dget_foldl_ddel]
-      by_cases hk : k ∈ e.ids <;> simp [hk]
-    · intro x n
-      cases hxt : e.xt with
-      | none => simp
-      | some y =>
-        simp only [List.mem_filter, ne_eq, decide_not, Bool.not_eq_true', decide_eq_false_iff_not,
-          Prod.mk.injEq, Option.some.injEq]
-        constructor
-        · rintro ⟨h1, h2⟩
-          exact ⟨h1, fun ⟨a, b⟩ => h2 ⟨a.symm, b.symm⟩⟩
-        · rintro ⟨h1, h2⟩
-          exact ⟨h1, fun ⟨a, b⟩ => h2 ⟨a.symm, b.symm⟩⟩
-  · rw [if_neg hc] at h
-    cases h
+  simp only [Except.ok.injEq] at h
+  subst h
+  refine ⟨rfl, rfl, rfl, rfl, ?_, ?_⟩
+  · intro k
+    simp only [fragGet, dget_foldl_ddel]
+    by_cases hk : k ∈ e.ids <;> simp [hk]
+  · intro x n
+    cases hxt : e.xt with
+    | none => simp
+    | some y =>
+      simp only [List.mem_filter, ne_eq, decide_not, Bool.not_eq_true', decide_eq_false_iff_not,
+        Prod.mk.injEq, Option.some.injEq]
+      constructor
+      · rintro ⟨h1, h2⟩
+        exact ⟨h1, fun ⟨a, b⟩ => h2 ⟨a.symm, b.symm⟩⟩
+      · rintro ⟨h1, h2⟩
+        exact ⟨h1, fun ⟨a, b⟩ => h2 ⟨a.symm, b.symm⟩⟩
 
 theorem idcacheRemove_spec (seg : List Entry) (f f' : Frag) (h : idcacheRemove f seg = .ok f') :
     f'.tree = f.tree ∧ f'.ignDups = f.ignDups ∧ f'.name = f.name ∧ f'.semantic = f.semantic ∧
